@@ -8,6 +8,7 @@ pub mod c08;
 pub mod c09;
 pub mod c15;
 pub mod c16;
+pub mod c19;
 pub mod c20;
 pub mod common;
 pub mod c04;
@@ -26,6 +27,7 @@ pub fn run(cfg: &Cfg, rep: &mut Report) -> bool {
     "C09" => c09::run(cfg, rep),
     "C15" => c15::run(cfg, rep),
     "C16" => c16::run(cfg, rep),
+    "C19" => c19::run(cfg, rep),
     "C20" => c20::run(cfg, rep),
     "C04" => c04::run(cfg, rep),
     _ => return false,
